@@ -73,6 +73,7 @@ def run(ctx):
     R1 = ctx.rule('C15.R1', 'util::escape: output has no < > " \' and & only as the head of the five entities; every other byte verbatim; both overloads agree')
     R2 = ctx.rule('C15.R2', 'escape / urlencode / base64 stream filters forward to the util / b64url functions; form widgets write user-controlled text only through escape')
     R3 = ctx.rule('C15.R3', 'urlencode: unreserved bytes verbatim, everything else %hh (lower-case hex, high nibble first); urldecode inverts it for every byte')
+    R5 = ctx.rule('C15.R5', 'streaming variants report a failing sink: every stream-buffer write result decides the returned status (documented -1), and the failure flag is read from the object that did the writing')
     R4 = ctx.rule('C15.R4', 'base64url: 64 distinct URL-safe characters, decode table is the inverse, block codec exact, size formulas exact, invalid length rejected')
 
     # ---------------- R1
@@ -294,6 +295,11 @@ def run(ctx):
     vec = [i for i in dstr.calls() if dstr.N(i)['k'] in ('CXXConstructExpr',) and 'std::vector' in (dstr.callee(i) or '') and szv and szv[0] in dstr.subtree_refs(i)]
     ctx.check(bool(szv) and bool(succ) and all(dstr.only_through(r, g_neg) for r in succ) and len(vec) == 1, R4, 'decode(string):invalid-length-rejected-and-buffer-sized-by-decoded_size',
               'decode accepts an impossible length or sizes its buffer differently from decoded_size()', dstr.where)
+    outp_ = q.param_by_index(dstr, 1)
+    wr_ = q.writes_to(dstr, outp_)
+    for k_, r_ in enumerate(succ):
+        reach_ = dstr.reachable_blocks(cut_blocks=q.blocks_of(dstr, wr_))
+        ctx.check(dstr.point_of(r_)[0] not in reach_, R4, 'decode(string):success#%d:output-replaced' % k_, 'decode reports success without storing the decoded text (the caller keeps whatever the output string held before)', dstr.loc(r_))
     estr = [f for f in P.by_bname.get('cppcms::b64url::encode', []) if len(f.params) == 1]
     if estr:
         f = estr[0]
@@ -349,6 +355,109 @@ def run(ctx):
             wrapped = any((f.bcallee(j) or '') in ('cppcms::util::escape', 'cppcms::filters::escape::escape', 'cppcms::util::urlencode') or (f.bcallee(j) or '').startswith('cppcms::filters::escape') for j in f.calls(arg))
             ctx.check(wrapped, R2, 'form:%s#%d:escaped' % (f.bname.replace('cppcms::widgets::', '').replace('cppcms::', ''), n_sites), 'user-controlled text written to the page without util::escape / filters::escape', f.loc(i))
     ctx.stats['form_output_sites'] = n_sites
+
+    # ---------------- R5 sink failure is reported
+    esb = [f for f in P.by_bname.get('cppcms::util::escape', []) if len(f.params) == 3 and 'basic_streambuf' in f.id]
+    ctx.require(len(esb) == 1, 'C15.R5: util::escape(begin,end,streambuf&) not found')
+    esb = esb[0]
+    sink = q.param_by_index(esb, 2)
+    wrs = [i for i in esb.calls() if esb.N(i)['k'] == 'CXXMemberCallExpr' and q.short_of(esb.callee(i)) in ('sputn', 'sputc') and esb.ref_of(esb.obj(i)) == sink]
+    ctx.check(len(wrs) >= 2, R5, 'escape(streambuf):writes', 'no stream-buffer writes found', esb.where)
+    heads = set(esb.point_of(esb.N(L)['cond'])[0] for L in q.loops(esb) if esb.N(L).get('cond', -1) is not None and esb.N(L).get('cond', -1) >= 0 and esb.point_of(esb.N(L)['cond']))
+    ok_rets = [r for r in esb.returns() if esb.ret_value(r) is not None and esb.const_value(esb.ret_value(r)) == 0]
+    for k, w in enumerate(wrs):
+        # the comparison that turns the write result into success / failure
+        cmpn, succ_pol = None, None
+        for a in esb.ancestors(w):
+            n = esb.N(a)
+            if n['k'] == 'BinaryOperator' and n.get('op') in ('==', '!='):
+                other = [c for c in n['ch'] if w not in set(esb.walk(c))]
+                cv = esb.const_value(other[0]) if other else None
+                if cv is not None:
+                    sh = q.short_of(esb.callee(w))
+                    if sh == 'sputn':
+                        want_n = esb.const_value(esb.args(w)[1])
+                        succ_pol = (n['op'] == '==') if cv == want_n else None
+                    else:
+                        succ_pol = (n['op'] == '!=') if cv == -1 else None
+                    cmpn = a
+                break
+            if n['k'] in ('CompoundStmt', 'CaseStmt', 'DefaultStmt', 'SwitchStmt', 'WhileStmt', 'ForStmt'):
+                break
+        okw = cmpn is not None and succ_pol is not None
+        if okw:
+            par = esb.parent.get(cmpn)
+            flag = None
+            while par is not None and esb.N(par)['k'] in ('ParenExpr', 'ImplicitCastExpr'):
+                par = esb.parent.get(par)
+            if par is not None and esb.N(par)['k'] == 'BinaryOperator' and esb.N(par).get('op') == '=':
+                flag = esb.ref_of(esb.N(par)['ch'][0])
+            elif par is not None and esb.N(par)['k'] == 'DeclStmt':
+                flag = [d['ref'] for d in esb.N(par)['decls'] if d.get('init') is not None and cmpn in set(esb.walk(d['init']))][0]
+            if flag is not None:
+                gate = esb.gate_edges(lambda atom, pol: esb.N(atom)['k'] == 'DeclRefExpr' and esb.N(atom).get('ref') == flag and pol is succ_pol)
+                # the flag still holds this write's verdict when it is tested: no other definition in between is needed for a
+                # switch of single assignments; every path from the write to the next iteration / a success return passes the gate
+            else:
+                gate = esb.gate_edges(lambda atom, pol: atom == cmpn and pol is succ_pol)
+            pw = esb.point_of(w)
+            reach = esb.reachable_blocks(start=pw[0], cut_edges=[e for e in gate if len(e) == 4])
+            cont = [b for b in heads if b in reach and b != pw[0]] + [r for r in ok_rets if esb.point_of(r)[0] in reach]
+            okw = bool(gate) and not cont
+        ctx.check(okw, R5, 'escape(streambuf):write#%d:failure-reaches-minus-one' % k, 'the result of a stream-buffer write is not tested, or escape can go on / return 0 after a failed write', esb.loc(w))
+    eso = [f for f in P.by_bname.get('cppcms::util::escape', []) if len(f.params) == 3 and 'basic_ostream' in f.id]
+    if eso:
+        f = eso[0]
+        cs = [i for i in f.calls() if f.N(i).get('callee') == esb.id]
+        ss = [i for i in f.calls() if q.short_of(f.callee(i)) == 'setstate']
+        g = f.gate_edges(lambda atom, pol: f.N(atom)['k'] == 'BinaryOperator' and f.N(atom).get('op') in ('!=', '==') and cs and cs[0] in set(f.walk(atom)) and f.const_value(f.N(atom)['ch'][1]) == 0 and pol is (f.N(atom)['op'] == '!='))
+        okf = len(cs) == 1 and len(ss) == 1 and f.only_through(ss[0], g)
+        if okf:
+            g_ok = f.gate_edges(lambda atom, pol: f.N(atom)['k'] == 'BinaryOperator' and f.N(atom).get('op') in ('!=', '==') and cs[0] in set(f.walk(atom)) and pol is (f.N(atom)['op'] == '=='))
+            reach = f.reachable_blocks(start=f.point_of(cs[0])[0], cut_edges=[e for e in g_ok if len(e) == 4], cut_blocks=q.blocks_of(f, ss))
+            okf = f.exit not in reach
+        ctx.check(okf, R5, 'escape(ostream):failbit-on-failure', 'the ostream overload does not turn a failed stream-buffer write into failbit', f.where)
+    usb = [f for f in P.by_bname.get('cppcms::util::urlencode', []) if len(f.params) == 3 and 'basic_streambuf' in f.id]
+    ctx.require(len(usb) == 1, 'C15.R5: util::urlencode(begin,end,streambuf&) not found')
+    usb = usb[0]
+    fl = [i for i in usb.calls() if q.short_of(usb.callee(i)) == 'failed']
+    okq = len(fl) == 1
+    why = 'urlencode(streambuf) never asks the output iterator whether a write failed'
+    if okq:
+        itv = usb.ref_of(usb.obj(fl[0]))
+        # the iterator that is asked must be the one that wrote: handed to the encoder by reference, or re-assigned from its result
+        wrote = False
+        for i in usb.calls():
+            if i == fl[0] or usb.N(i)['k'] not in ('CallExpr',):
+                continue
+            for j, a in enumerate(usb.args(i)):
+                if usb.ref_of(a) == itv or itv in usb.subtree_refs(a):
+                    ov = usb.N(i).get('ov') or []
+                    byref = j < len(ov) and ov[j].strip().endswith('&') and not ov[j].strip().startswith('const ')
+                    par = usb.parent.get(i)
+                    while par is not None and usb.N(par)['k'] in ('ImplicitCastExpr', 'ExprWithCleanups', 'MaterializeTemporaryExpr', 'CXXBindTemporaryExpr', 'CXXConstructExpr'):
+                        par = usb.parent.get(par)
+                    assigned = par is not None and usb.N(par)['k'] in ('CXXOperatorCallExpr', 'BinaryOperator') and usb.N(par).get('op') == '=' and usb.ref_of(usb.N(par)['ch'][1 if usb.N(par)['k'] == 'CXXOperatorCallExpr' else 0]) == itv
+                    wrote = wrote or byref or assigned
+        okq = wrote
+        why = 'urlencode(streambuf) tests failed() on its own iterator, but the encoder wrote through a by-value copy: a failing sink is never reported (always returns 0)'
+        g_f = q.call_gate(usb, lambda i: i in fl, True)
+        bad_rets = [r for r in usb.returns() if usb.ret_value(r) is not None and usb.const_value(usb.ret_value(r)) not in (0, None)]
+        reports = bool(bad_rets) and all(usb.only_through(r, g_f) for r in bad_rets)
+        for r in usb.returns():
+            v = usb.ret_value(r)
+            vn = usb.N(usb.strip(v)) if v is not None else None
+            if vn is not None and vn['k'] == 'ConditionalOperator' and len(vn['ch']) == 3:
+                c_, t_, e_ = vn['ch']
+                facts_t = usb.cond_facts(c_, True)
+                facts_f = usb.cond_facts(c_, False)
+                if any(a in fl and p_ is True for (a, p_) in facts_t) and usb.const_value(t_) not in (0, None) and usb.const_value(e_) == 0:
+                    reports = True
+                if any(a in fl and p_ is True for (a, p_) in facts_f) and usb.const_value(e_) not in (0, None) and usb.const_value(t_) == 0:
+                    reports = True
+        okq = okq and reports
+    ctx.check(okq, R5, 'urlencode(streambuf):failure-observed-on-the-writing-iterator', why, usb.where)
+    ctx.floor(R5, 7)
     ctx.floor(R1, 4)
     ctx.floor(R2, 12)
     ctx.floor(R3, 4)
